@@ -35,7 +35,7 @@ pub fn prop() -> Prop {
         assumptions: vec![
             "independent 802.15.4 / RFC 4944 / RFC 6282 codec in vcheck/src/c20_lowpan.rs and IPv6/UDP/ICMPv6/TCP codec in vkit::indep",
             "frames handed to the device carry no FCS: 'fits an 802.15.4 frame' is asserted as <= 127 octets (frames > 125 octets are only counted)",
-            "reference reassembler: REASSEMBLY_BUFFER_COUNT datagrams in progress, ASSEMBLER_MAX_SEGMENT_COUNT disjoint ranges per datagram, 60 s timeout from the first fragment seen; a datagram must be delivered iff this model completes it",
+            "reference reassembler: REASSEMBLY_BUFFER_COUNT datagrams in progress, ASSEMBLER_MAX_SEGMENT_COUNT disjoint ranges per datagram, the timeout the interface reports (reassembly_timeout(), 60 s by default) from the first fragment seen; a datagram must be delivered iff this model completes it",
             "the channel never duplicates every fragment of a datagram nor an unfragmented frame, so 'at most once' is well defined",
             "datagrams longer than 2047 octets cannot be expressed in RFC 4944 fragment headers: nothing may be delivered and nothing undecodable may be emitted for them",
             "neighbour discovery frames flow in order without faults",
